@@ -234,6 +234,11 @@ class FinishedPdu(AbstractFileDirectiveBase):
                 finished_pdu.pdu_file_directive.packet_len, len(data)
             )
         current_idx = finished_pdu.pdu_file_directive.header_len
+        end_of_params_idx = finished_pdu.pdu_file_directive.packet_len
+        if finished_pdu.pdu_file_directive.pdu_conf.crc_flag == CrcFlag.WITH_CRC:
+            end_of_params_idx -= 2
+        if current_idx >= end_of_params_idx:
+            raise BytesTooShortError(current_idx + 1, end_of_params_idx)
         first_param_byte = data[current_idx]
         params = FinishedParams(
             condition_code=ConditionCode((first_param_byte & 0xF0) >> 4),
@@ -243,9 +248,9 @@ class FinishedPdu(AbstractFileDirectiveBase):
         finished_pdu.condition_code = params.condition_code
         finished_pdu._params = params
         current_idx += 1
-        if len(data) > current_idx:
+        if end_of_params_idx > current_idx:
             finished_pdu._unpack_tlvs(
-                rest_of_packet=data[current_idx : finished_pdu.packet_len]
+                rest_of_packet=data[current_idx:end_of_params_idx]
             )
         return finished_pdu
 
